@@ -88,6 +88,9 @@ def programs():
     add("lazy_clone(at)", "escape-scope", "let mut v = mk();\nlet l;\n{\n    let e = v.at(0);\n    l = e.lazy_clone();\n}\ntouch(&l);", "let mut v = mk();\n{\n    let e = v.at(0);\n    let l = e.lazy_clone();\n    touch(&l);\n}")
     add("lazy_clone(pop)", "escape-scope", "let mut v = mk();\nlet l;\n{\n    let h = v.pop().unwrap();\n    l = h.lazy_clone();\n}\ntouch(&l);", "let mut v = mk();\n{\n    let h = v.pop().unwrap();\n    let l = h.lazy_clone();\n    touch(&l);\n}")
     add("lazy_clone(pop)", "consume-source-while-lazy", "let mut v = mk();\nlet h = v.pop().unwrap();\nlet l = h.lazy_clone();\nlet s = h.downcast::<String>();\ntouch(&l);", "let mut v = mk();\nlet h = v.pop().unwrap();\nlet l = h.lazy_clone();\ntouch(&l);\ndrop(l);\nlet s = h.downcast::<String>();")
+    # the explicit constructor ties the lazy clone to its source just like `.lazy_clone()` does
+    add("LazyClone::new(pop)", "escape-scope", "let mut v = mk();\nlet l;\n{\n    let h = v.pop().unwrap();\n    l = LazyClone::new(&h);\n}\ntouch(&l);", "let mut v = mk();\n{\n    let h = v.pop().unwrap();\n    let l = LazyClone::new(&h);\n    touch(&l);\n}")
+    add("LazyClone::new(remove)", "consume-source-while-lazy", "let mut v = mk();\nlet h = v.remove(0);\nlet l = LazyClone::new(&h);\ndrop(h);\ntouch(&l);", "let mut v = mk();\nlet h = v.remove(0);\nlet l = LazyClone::new(&h);\ntouch(&l);\ndrop(l);\ndrop(h);")
     add("lazy_clone(lazy)", "escape-scope", "let mut v = mk();\nlet e = v.at(0);\nlet l2;\n{\n    let l1 = e.lazy_clone();\n    l2 = l1.lazy_clone();\n}\ntouch(&l2);", "let mut v = mk();\nlet e = v.at(0);\n{\n    let l1 = e.lazy_clone();\n    let l2 = l1.lazy_clone();\n    touch(&l2);\n}")
     # typed shared view
     for name, make in TYPED_REF:
